@@ -7,6 +7,7 @@ import (
 	errorsmod "cosmossdk.io/errors"
 	sdktypes "github.com/cosmos/cosmos-sdk/types"
 	sdkerrors "github.com/cosmos/cosmos-sdk/types/errors"
+	"github.com/ethereum/go-ethereum/common"
 	"github.com/ethereum/go-ethereum/core/types/goattypes"
 	"github.com/goatnetwork/goat/x/goat/types"
 )
@@ -47,6 +48,11 @@ func (k msgServer) NewEthBlock(ctx context.Context, req *types.MsgNewEthBlock) (
 
 	if !bytes.Equal(block.BlockHash, payload.ParentHash) || block.BlockNumber+1 != payload.BlockNumber {
 		return nil, errorsmod.Wrap(sdkerrors.ErrInvalidRequest, "incorrect parent block")
+	}
+
+	// the block hash is saved as the parent of the next block, it must be exactly a hash
+	if len(payload.BlockHash) != common.HashLength {
+		return nil, errorsmod.Wrap(sdkerrors.ErrInvalidRequest, "invalid block hash")
 	}
 
 	if payload.BlobGasUsed > 0 {
